@@ -362,6 +362,9 @@ impl FieldMap {
             )));
         }
         let mut ki: HashMap<config::FieldKey, Field> = HashMap::with_capacity(config_mapping.len());
+        // verification hook: the order in which the map yields its entries is a choice of the harness
+        #[cfg(okane_verif)]
+        let config_mapping = okane_core::verif::permuted(config_mapping.iter().collect::<Vec<_>>());
         for (&k, pos) in config_mapping {
             let field = match &pos {
                 config::FieldPos::Index(i) => Ok(Field::ColumnIndex(i.as_zero_based())),
